@@ -610,6 +610,7 @@ _C06_MAPS = {'_PATH_PART_QUOTE_MAP': 'pathMap', '_QUERY_PART_QUOTE_MAP': 'queryM
 _C06_SETS = {'_PATH_DELIMS': 'pathDelims', '_QUERY_DELIMS': 'queryDelims', '_FRAGMENT_DELIMS': 'fragmentDelims',
              '_USERINFO_DELIMS': 'userinfoDelims'}
 _C06_CFG = {'maps': _C06_MAPS, 'sets': _C06_SETS, 'hexmaps': {'_HEX_CHAR_MAP': 'hexMap'},
+            'regex_split': {'_ASCII_RE': ('([\x00-\x7f]+)', 'asciiSplit')},
             'covers': {m: sorted(_C06_SETS) for m in _C06_MAPS}}
 _C06 = [
     {'module': 'boltons.urlutils', 'qualname': 'quote_%s_part' % _c, 'lean_name': 'quote_%s_part' % _c,
@@ -622,5 +623,12 @@ _C06 = [
 _C06.append({'module': 'boltons.urlutils', 'qualname': 'unquote_to_bytes', 'lean_name': 'unquote_to_bytes',
              'params': {'string': 'Str'}, 'kind': 'function', 'result': 'Bytes',
              'tie_theorem': 'C06.src_unquote_to_bytes_eq_model', 'translator': 'py2lean_c06',
+             'gen_file': 'urlutils_quote', 'c06': _C06_CFG})
+# `unquote(string)` called with the defaults of `encoding` / `errors` (`consts`: parameters fixed to their default, which the
+# translator checks in the signature); `_ASCII_RE.split` is the declared operation `PyRtC06.asciiSplit` (`regex_split`: the
+# regex must be compiled from exactly that pattern); `.decode('utf-8', 'replace')` is `PyRtC06.decodeUtf8Replace`.
+_C06.append({'module': 'boltons.urlutils', 'qualname': 'unquote', 'lean_name': 'unquote',
+             'params': {'string': 'Str'}, 'consts': {'encoding': 'utf-8', 'errors': 'replace'}, 'kind': 'function',
+             'result': 'Str', 'tie_theorem': 'C06.src_unquote_eq_model', 'translator': 'py2lean_c06',
              'gen_file': 'urlutils_quote', 'c06': _C06_CFG})
 SPECS['C06'] = _C06
